@@ -461,6 +461,10 @@ func (w *worker) checkDoc(doc Doc) {
 		switch {
 		case touched && !isLink:
 			w.report("rewrote-non-destination:"+p.Kind, "goldmark does not treat this span as a link destination, but it was rewritten: "+ctx)
+		case touched && notRelative(gdest):
+			// only relative destinations are rewritten (the replacer documents
+			// that absolute URLs and query/fragment-only URLs are left unchanged)
+			w.report("rewrote-non-relative:"+p.Kind, "this destination has a scheme or is only a query/fragment, but it was rewritten: "+ctx)
 		case touched:
 			// goldmark must still read a link there, absolute against the base
 			adest, still := after[p.Token]
@@ -533,6 +537,13 @@ func (w *worker) checkDoc(doc Doc) {
 		}
 		w.report("not-idempotent", fmt.Sprintf("replace(replace(x)) != replace(x) at offset %d: first pass %q, second pass %q\ndocument: %s", k, core.Truncate(string(res.Out[k:]), 100), core.Truncate(string(res2.Out[k:]), 100), docJSON(doc)))
 	}
+}
+
+// notRelative reports whether a destination, as goldmark reads it, is outside
+// the rewriting: it has a scheme, or neither host nor path.
+func notRelative(dest string) bool {
+	u, err := url.Parse(dest)
+	return err == nil && (u.Scheme != "" || (u.Host == "" && u.Path == ""))
 }
 
 // leftClass names the construct in which a link was left unrewritten.
